@@ -44,4 +44,23 @@ int mkdir(const char *a, mode_t m) { REAL(mkdir); if (watched(a)) note("mkdir", 
 int mkdirat(int fd, const char *a, mode_t m) { REAL(mkdirat); if (watched(a)) note("mkdir", a, NULL); return real(fd, a, m); }
 int unlink(const char *a) { REAL(unlink); if (watched(a)) note("unlink", a, NULL); return real(a); }
 int unlinkat(int fd, const char *a, int fl) { REAL(unlinkat); if (watched(a)) note("unlink", a, NULL); return real(fd, a, fl); }
+
+/* Re-opening an existing, non-empty file with O_TRUNC destroys its content before the new content is written:
+ * the mutation is noted AFTER the open took effect, so a kill here leaves the file empty. */
+#include <stdarg.h>
+static int trunc_existing(const char *p, int flags) {
+  struct stat st;
+  return watched(p) && (flags & O_TRUNC) && (flags & (O_WRONLY | O_RDWR)) && stat(p, &st) == 0 && st.st_size > 0;
+}
+#define OPEN_BODY(name, CALL)                                              \
+  mode_t m = 0;                                                            \
+  if (flags & (O_CREAT | O_TMPFILE)) { va_list ap; va_start(ap, flags); m = va_arg(ap, mode_t); va_end(ap); } \
+  int t = trunc_existing(a, flags);                                        \
+  int fd = CALL;                                                           \
+  if (t && fd >= 0) note("truncate", a, NULL);                             \
+  return fd;
+int open(const char *a, int flags, ...) { REAL(open); OPEN_BODY(open, real(a, flags, m)) }
+int open64(const char *a, int flags, ...) { REAL(open64); OPEN_BODY(open64, real(a, flags, m)) }
+int openat(int d, const char *a, int flags, ...) { REAL(openat); OPEN_BODY(openat, real(d, a, flags, m)) }
+int openat64(int d, const char *a, int flags, ...) { REAL(openat64); OPEN_BODY(openat64, real(d, a, flags, m)) }
 int rmdir(const char *a) { REAL(rmdir); if (watched(a)) note("rmdir", a, NULL); return real(a); }
